@@ -2,11 +2,18 @@
 """Print the markdown table of /verif/seeded/RESULTS.json (which checks catch which seeded changes)."""
 import json
 import os
+import sys
+
+COMPACT = "--compact" in sys.argv
 
 ROOT = os.path.join(os.path.dirname(os.path.abspath(__file__)), "..", "seeded")
 res = json.load(open(os.path.join(ROOT, "RESULTS.json")))
-print("| seed | change (file: what) | needs | owner check | failing input reported by the owner check | also caught by |")
-print("|---|---|---|---|---|---|")
+if COMPACT:
+    print("| seed | change (file: what) | owner check | also caught by |")
+    print("|---|---|---|---|")
+else:
+    print("| seed | change (file: what) | needs | owner check | failing input reported by the owner check | also caught by |")
+    print("|---|---|---|---|---|---|")
 for sid in sorted(res):
     r = res[sid]
     meta = json.load(open(os.path.join(ROOT, sid, "meta.json"))) if os.path.exists(os.path.join(ROOT, sid, "meta.json")) else {}
@@ -23,4 +30,7 @@ for sid in sorted(res):
     title = (meta.get("title") or "")[:90].replace("|", "\\|")
     needs = (meta.get("needs") or "")[:110].replace("|", "\\|").replace("\n", " ")
     files = ",".join(os.path.basename(f) for f in r.get("files", []))
-    print(f"| {sid} | {files}: {title} | {needs} | {kind} | {inp} | {' '.join(others)} |")
+    if COMPACT:
+        print(f"| {sid} | {files}: {title[:80]} | {kind} | {' '.join(others)} |")
+    else:
+        print(f"| {sid} | {files}: {title} | {needs} | {kind} | {inp} | {' '.join(others)} |")
